@@ -51,6 +51,23 @@ inductive DOp where
   | blocked (batches : List (List Nat))
   /-- the `trap` built-in itself: `trap ACTION COND…` (origin = position of the operation) -/
   | trapCmd (a : Action) (conds : List String) (origin : Nat)
+  /-- `run_traps_for_caught_signals` with the frames pushed on `env.stack` (outermost first) -/
+  | framedRun (stack : List Frame) (exit : Nat)
+
+/-- `frun` frames: `L` loop, `S` subshell, `C` condition, `B` built-in, `D` dot script, `I` init file,
+    `T<COND>` trap action; separated by `.`, outermost first; `-` = empty stack -/
+def parseFrames (s : String) (parseCond : String → Option Nat) : Option (List Frame) :=
+  if s == "-" then some [] else
+  (s.splitOn ".").mapM fun w =>
+    match w.toList with
+    | ['L'] => some .loop
+    | ['S'] => some .subshell
+    | ['C'] => some .condition
+    | ['B'] => some .builtin
+    | ['D'] => some .dotScript
+    | ['I'] => some .initFile
+    | 'T' :: r => (parseCond (String.ofList r)).map .trap
+    | _ => none
 
 def parseOp (k : Nat) (t : String) : Option DOp :=
   match words t with
@@ -70,6 +87,7 @@ def parseOp (k : Nat) (t : String) : Option DOp :=
     let n ← parseSig s
     if n = SIGKILL ∨ n = SIGSTOP then none else pure (.op (.deliver n))
   | ["run", n] => do pure (.runTraps (← n.toNat?))
+  | ["frun", fr, n] => do pure (.framedRun (← parseFrames fr parseCond) (← n.toNat?))
   | ["tr", a, cs] => do
     let act ← parseAction a
     let names := cs.splitOn ","
@@ -184,6 +202,10 @@ def opResult (st : State) : DOp → String
     let r := runTrapsForCaughtSignals body7 false st.traps e
     let runs := r.runs.map fun (s, c) => s!"{condName s}:{c}@{e}"
     s!"runs={",".intercalate runs};exit={r.exit};div={showDivert r.divert}"
+  | .framedRun stack e =>
+    let r := runTrapsOnStack body7 stack st.traps e
+    let runs := r.runs.map fun (s, c) => s!"{condName s}:{c}@{e}"
+    s!"runs={",".intercalate runs};exit={r.exit};div={showDivert r.divert};intrap={if inTrap stack then 1 else 0}"
   | .blocked batches =>
     if blockable st then
       if (interruptedBuiltin st.traps (batches.map (reported st))).2 then "int386" else "hang"
@@ -200,6 +222,7 @@ def opResult (st : State) : DOp → String
 def dstep (st : State) : DOp → State
   | .op o => step st o
   | .runTraps e => { st with traps := (runTrapsForCaughtSignals body7 false st.traps e).traps }
+  | .framedRun stack e => { st with traps := (runTrapsOnStack body7 stack st.traps e).traps }
   | .raiseRun sig e =>
     { st with traps := (runTrapsAfterPoll body7 false (polledBy st sig) st.traps e).traps }
   | .blocked batches =>
@@ -219,6 +242,20 @@ def runVerdict (st : State) (e : Nat) : Option String :=
   else if r.divert = none ∧ pendingCommands r.traps ≠ [] then some "left-pending"
   else none
 
+/-- Spec verdict for a `frun`: is a signal trap action running in this shell process (a `Trap(signal)`
+    frame with no `Subshell` frame inside it)?  Then nothing runs and nothing changes; otherwise as `run`.
+    (`signalTrapRunning`, Spec.lean: a direct recursion from the outermost frame, not `inTrap`). -/
+def framedVerdict (st : State) (stack : List Frame) (e : Nat) : Option String :=
+  let r := runTrapsOnStack body7 stack st.traps e
+  if signalTrapRunning stack false then
+    if r.runs ≠ [] then some "ran-inside-trap"
+    else if pendingCommands r.traps ≠ pendingCommands st.traps then some "lost-inside-trap"
+    else if r.exit ≠ (e : Int) ∨ r.divert ≠ none then some "exit-status"
+    else none
+  else if r.runs ++ pendingCommands r.traps ≠ pendingCommands st.traps then some "runs"
+  else if r.divert = none ∧ pendingCommands r.traps ≠ [] then some "left-pending"
+  else none
+
 /-- Spec verdict for one `trap ACTION COND…` command (no KILL/STOP among the conditions): every
     listed condition holds, afterwards, what `trapCommandExpect` says — ignored on entry: still
     `{Ignore, Inherited}`; every other one: the action, wherever it stands in the list -/
@@ -233,6 +270,15 @@ def trapVerdict (st st' : State) (a : Action) (names : List String) (origin : Na
       match (getState st'.traps c).1 with
       | some ts => if ts.action = want.1 ∧ ts.origin = want.2 then none else some s!"skipped:{n}"
       | none => some s!"skipped:{n}"
+
+/-- Spec verdict for one `sub I K`: every watched signal has, afterwards, the installed disposition and
+    the action `subshellExpect` reads off the documentation of `enter_subshell` from the state before -/
+def subshellVerdict (st st' : State) (ii ks : Bool) : Option String :=
+  watched.findSome? fun s =>
+    let want := subshellExpect st ii ks s
+    if st'.sys.disp s ≠ want.1 then some s!"subshell-disposition:{condName s}"
+    else if (get st'.traps s).map (·.current.action) ≠ want.2 then some s!"subshell-action:{condName s}"
+    else none
 
 def parseInit (t : String) : Option (List Nat) :=
   match words t with
@@ -274,7 +320,9 @@ def opsLine (line : String) : String :=
             | none =>
               match op with
               | .runTraps e => (runVerdict st e).map fun w => s!"FAIL:{w}@{k}"
+              | .framedRun stack e => (framedVerdict st stack e).map fun w => s!"FAIL:{w}@{k}"
               | .trapCmd a names origin => (trapVerdict st st' a names origin).map fun w => s!"FAIL:{w}@{k}"
+              | .op (.enterSubshell ii ks) => (subshellVerdict st st' ii ks).map fun w => s!"FAIL:{w}@{k}"
               | _ => none
         go st' vs' rest (k + 1) (" ".intercalate (s!"r={r}" :: d) :: obs) v
     let st0 := State.init init
